@@ -1004,8 +1004,7 @@ class SigGen:
                               'end do', 'call hzk(n - 1, m, hz3(2, 1, 1), ls2)']),
             'shape_star_deferred': ([], ['call hzk(t3%a, n, ls2)']),
             'shape_star_literal_index': ([], ['call hzk(l2(:, 1), n, ls2)']),
-            'shape_star_deferred': 'deferred-shape (allocatable component) actual for an assumed-size dummy',
-    'shape_lbound': (['real(kind=rk) :: hz0(0:n-1)'],
+            'shape_lbound': (['real(kind=rk) :: hz0(0:n-1)'],
                              ['do i = 0, n - 1', '  hz0(i) = 0.0625_rk*real(mod(i*i + 5, 7), kind=rk)', 'end do',
                               'call hzk(hz0, ls2)']),
             'shape_section': ([], ['call hzk(x2(2:n), ls2)']),
